@@ -1081,9 +1081,12 @@ def check_state_limit_writers(ctx, rep, pid):
     pf = an.paths(fn)
     for (pe, v, site) in field_stores(fa, 'state_limit', 'MachineRuntime'):
         okv = v[0] == 'bin' and v[1] == 'Sub' and is_field(v[2], 'state_limit', 'MachineRuntime') and is_const(v[3], 1)
+        # `x = x.saturating_sub(1)` is `if x > 0 { x -= 1 }`
+        sat = is_call(v, '::saturating_sub') and len(v[2]) == 2 and is_field(v[2][0], 'state_limit', 'MachineRuntime') and is_const(v[2][1], 1)
+        okv = okv or sat
         rep.ob(pid + '.R1', fn, 'decrement-by-one', okv, 'value %s' % shape(v))
         st = pf.at(site[0], site[1])
-        ok, w = all_paths(st, lambda S: cmp_int_true(S, 'lt', lambda l: is_const(l, 0), lambda r: is_field(r, 'state_limit', 'MachineRuntime')))
+        ok, w = all_paths(st, lambda S: sat or cmp_int_true(S, 'lt', lambda l: is_const(l, 0), lambda r: is_field(r, 'state_limit', 'MachineRuntime')))
         rep.ob(pid + '.R1', fn, 'decrement-guarded-by-positive', ok, 'state_limit > 0 holds (not invalidated) at the decrement')
         idx = base_of(unload(pe))
         rep.ob(pid + '.R1', fn, 'decrement-own-machine', idx is not None and idx[0] == 'idx' and idx[2] == ('param', 2), show(pe))
